@@ -155,15 +155,21 @@ def verify_function(c, extra_options=None):
                 cur.env["result"] = oc.value
                 if c.exit_hints:
                     ex.apply_hints(cur, c.exit_hints, fs.path)
+                # postconditions speak about the caller's view: parameter names denote the objects / values passed in (current heap),
+                # not whatever a local rebinding (`y = np.where(...)`) made of the name; local_ensures keep the function's own view
+                caller = cur.copy()
+                for p in c.params:
+                    if p in cur.old["env"]:
+                        caller.env[p] = cur.old["env"][p]
                 for nm, e in list(c.ensures.items()) + list(c.local_ensures.items()):
                     try:
-                        g = ex.spec_eval(e, cur)
+                        g = ex.spec_eval(e, caller if nm in c.ensures else cur)
                     except Unsupported as exc:
                         if nm in c.local_ensures and "unbound name" in str(exc):
                             continue      # a clause about locals that do not exist on this return path
                         raise
                     by = (c.options.get("by") or {}).get(nm)
-                    ex.emit(cur, "post", nm, g, fs.path, by=by)
+                    ex.emit(caller if nm in c.ensures else cur, "post", nm, g, fs.path, by=by)
                 for p in c.track_written:
                     a = cur.env[p] if p in cur.env else None
                     a0 = cur.old["env"][p]
